@@ -953,7 +953,7 @@ package flags
 
 //@ func wrapText(s string, l int, prefix string) (r string)
 //@   traced
-//@   props C17 C04
+//@   props C17 C16 C04
 //@   requires nwd(prefix) == ""
 //@   loop 1 invariant l >= 10 && unfold(joinN(lines, idx_1)) && unfold(joinN(lines, idx_1 + 1)) && nwd(ret) == joinN(lines, idx_1)
 //@   loop 2 invariant l >= 10 && (len(line) > 0 ==> line[0] != ' ') && nwd(retline) + nwd(line) == nwd(loopentry(line))
